@@ -8,6 +8,7 @@ prefixed "T ", then "end".
 Prints `ok …` or `reject <reason>`. -/
 import TboxModel.Util
 import TboxModel.C01.Spec
+import Std.Data.HashMap
 open Tbox.Util Tbox.C01
 
 /-- script items of a callable: model acts plus "thread t submits template k right now" -/
@@ -21,6 +22,8 @@ def nThreads : Nat := 4
 def parseXAct (w : String) : Option XAct :=
   match w.toList with
   | ['x'] => some (.act .exit)
+  | ['t'] => some (.act .exitLater)
+  | ['!'] => some (.act .throw)
   | 'i' :: r => (String.ofList r).toNat?.bind fun k => if k < 64 then some (.act (.inLoop k)) else none
   | 'n' :: r => (String.ofList r).toNat?.bind fun k => if k < 64 then some (.act (.next k)) else none
   | 'c' :: r => (String.ofList r).toNat?.map fun id => .act (.cancel id)
@@ -51,6 +54,9 @@ structure TAcc where
   late : Option (Nat × Nat) := none           -- a submitter blocked on lock_ (thread, template)
   fuel : Nat := 400000
   runs : Nat := 0                             -- loop starts on this loop object
+  internal : List Nat := []                   -- run ids of the loop's own deferred tasks (deleteTimer -> run())
+  due : Bool := false                         -- the virtual clock passed the exit timer's deadline
+  thrown : Bool := false                      -- the running callable threw: the rest of its script is skipped
   execs : Nat := 0
 
 def TAcc.ext (a : TAcc) (k : Nat) : List XAct := (a.progs.lookup k).getD []
@@ -72,6 +78,13 @@ def doStep (a : TAcc) (st : Step) : TAcc :=
 def phaseName : Phase → String
   | .idle => "idle" | .poll => "poll" | .pre => "pre" | .wake => "wake" | .next => "next" | .drain => "drain" | .dead => "dead"
 
+/-- exitLoop()/exitLoop(ms) through model step `st`: disabling an armed exit timer makes the loop submit a
+deferred task to itself (no `E`/`S` line for it) -/
+def exitStep (a : TAcc) (st : Step) (later : Bool) : TAcc :=
+  let a := if a.s.exitTimer then { a.tag "exit-timer-dropped" with internal := (a.s.nextAlloc + 2) :: a.internal } else a
+  let a := if later then { a.tag "exit-timer-armed" with due := false } else a
+  doStep a st
+
 /-- cross-thread runInLoop as a model step + expected `S id` line -/
 def crossSubmit (a : TAcc) (t k : Nat) (suffix : String) : TAcc :=
   let id := a.s.inAlloc + 2
@@ -83,7 +96,7 @@ def crossSubmit (a : TAcc) (t k : Nat) (suffix : String) : TAcc :=
 /-- the script of the callable that was just popped -/
 def runScript (a : TAcc) (b : List XAct) : TAcc :=
   b.foldl (fun a x =>
-    if a.err.isSome then a else
+    if a.err.isSome || a.thrown then a else
     match x with
     | .act (.inLoop k) =>
         let id := a.s.inAlloc + 2
@@ -96,7 +109,9 @@ def runScript (a : TAcc) (b : List XAct) : TAcc :=
         let a := a.tag (if r then (if hasId a.s.tmpQ id then "cancel-batch-hit" else "cancel-queue-hit")
                         else if id ∈ a.s.executed then "cancel-after-exec" else if id ∈ idsOf a.s.dQ then "cancel-in-drain-miss" else "cancel-miss")
         expectLine (doStep a .act) ("C " ++ toString id ++ (if r then " 1" else " 0"))
-    | .act .exit => (doStep a .act).tag "exit-in-task"
+    | .act .exit => (exitStep a .act false).tag "exit-in-task"
+    | .act .exitLater => exitStep a .act true
+    | .act .throw => { (doStep a .act).tag "throw" with thrown := true }
     | .cross t k =>
         if t ≥ nThreads || t == a.s.loopTid || a.late.isSome || (a.s.phase == .drain && a.s.destroying) then
           expectLine a "W skip"
@@ -110,8 +125,9 @@ def afterPop (a : TAcc) : TAcc :=
   match a.s.log with
   | .exec id tid :: _ =>
       if a.fuel = 0 then a.fail "driver fuel exhausted (runaway program)" else
-      let a := expectLine { a with fuel := a.fuel - 1, execs := a.execs + 1 } s!"E {id} {tid}"
-      runScript a ((a.bodies.lookup id).getD [])
+      if a.internal.contains id then { a with fuel := a.fuel - 1 } else
+      let a := expectLine { a with fuel := a.fuel - 1, execs := a.execs + 1, thrown := false } s!"E {id} {tid}"
+      { (runScript a ((a.bodies.lookup id).getD [])) with thrown := false }
   | _ => a.fail "driver: no exec event after pop"
 
 def batch (a : TAcc) : Nat → TAcc
@@ -140,7 +156,8 @@ def finishExit (a : TAcc) : TAcc :=
 
 def onePass (a : TAcc) (stop : Bool) : TAcc :=
   let a := doStep a .passBegin
-  let a := if stop then doStep a (.cbAct .exit) else a
+  let a := if stop then exitStep a (.cbAct .exit) false else a
+  let a := if a.s.exitTimer && a.due then { (doStep a .timerExit).tag "exit-timer-fired" with due := false } else a
   let a := if a.s.wakeSeen then
              doStep (if a.runs ≥ 2 then a.tag "wake-after-rerun" else a.tag "wake") .passWake
            else doStep (if !a.s.inLoopQ.isEmpty then a.tag "UNWOKEN" else a) .passSkip
@@ -158,7 +175,7 @@ def opDestroy (a : TAcc) (t : Nat) : TAcc :=
   let a := drain a 0 1000000
   let a := expectLine a "P destroyed"
   let a := if !(pend a.s).isEmpty then a.tag "dropped-after-100-generations" else a
-  { a with s := init, bodies := [], runs := 0 }
+  { a with s := init, bodies := [], runs := 0, internal := [], due := false }
 
 def thr (w : String) : Option Nat := w.toNat?.bind fun t => if t < nThreads then some t else none
 def tmpl (w : String) : Option Nat := w.toNat?.bind fun k => if k < 64 then some k else none
@@ -195,8 +212,13 @@ def stepOp (a : TAcc) (line : String) : TAcc :=
       | _, _ => bad
   | ["exit", t] =>
       match thr t with
-      | some t => if !idle then bad else expectLine (doStep a (.idleAct t .exit)) "P exit"
+      | some t => if !idle then bad else expectLine (exitStep a (.idleAct t .exit) false) "P exit"
       | none => bad
+  | ["exitt", t] =>
+      match thr t with
+      | some t => if !idle then bad else expectLine (exitStep a (.idleAct t .exitLater) true) "P exit"
+      | none => bad
+  | ["tick"] => expectLine { a with due := a.due || a.s.exitTimer } "P tick"
   | ["run", m, t] =>
       match thr t with
       | some t =>
@@ -220,69 +242,323 @@ def finalize (a : TAcc) : TAcc :=
   let a := if a.s.phase != .idle then onePass a true else a
   opDestroy a 0
 
-/-! ### stress histories -/
+/-! ### free-running histories: reconstruction of a model step list
 
-structure Key where
-  owner : Nat
-  entry : String
-deriving BEq
+The harness stamps every event with a global sequence number taken where the order is unambiguous
+(`LA`/`LR`: inside the critical section of lock_, `EW`/`ER`: after the eventfd syscall returned, `PW`/`PR`:
+around the poll, `S*`/`A*`/`X*`: around API calls and callables) and prints them in stamp order.
+Reconstruction: every critical section of lock_ is one model step applied at its `LR` (sections of one
+mutex are totally ordered, so this is the real order); the shutdown drain is entered at its first callable
+and left at its `LR`; lock-free loop-thread steps are applied when their event appears (they commute with
+cross-thread submissions).  The one ambiguous point is when the poll sampled the eventfd: a pass that ran
+the eventfd callback is linearised just before that callback's critical section (every write the kernel
+could have seen belongs to a section that precedes it in lock order; the submitter may still sit between
+its write and its unlock when the poll returns), a pass that did not at the poll's entry (`PW`) — the
+counter only grows in between, so both choices are forced.  Every step is checked with `valid`;
+run ids, cancel results, the eventfd writes (a write exactly when the model commits a wake-up) and the
+identity of every executed callable must agree with the model. -/
 
-structure KS where
-  key : Key
-  submitted : Nat := 0
-  lastSeq : Nat := 0
-  executed : Nat := 0
-  cancelled : List Nat := []
+instance : Inhabited Task := ⟨{ id := 0, owner := 0, body := [] }⟩
 
-structure SAcc where
-  ks : List KS := []
-  err : Option String := none
-  lost : Nat := 0
-  total : Nat := 0
-  doneSeen : Bool := false
+structure SEv where
+  tid : Nat
+  kind : String
+  a : Nat := 0
+  b : Nat := 0
+  c : Nat := 0
 
-def SAcc.upd (a : SAcc) (k : Key) (f : KS → KS) : SAcc :=
-  if a.ks.any (·.key == k) then { a with ks := a.ks.map fun x => if x.key == k then f x else x }
-  else { a with ks := f { key := k } :: a.ks }
+def keyOf (o e q : Nat) : Nat := o * 1099511627776 + e * 4294967296 + q
+def showKey (k : Nat) : String :=
+  s!"{k / 1099511627776}/{Char.ofNat ((k / 4294967296) % 256)}/{k % 4294967296}"
 
-def SAcc.get (a : SAcc) (k : Key) : KS := (a.ks.find? (·.key == k)).getD { key := k }
-
-def stressLine (a : SAcc) (l : String) : SAcc :=
-  if a.err.isSome || a.doneSeen then a else
+def parseSEv (l : String) : Option SEv :=
   match words l with
-  | ["H", "sub", o, e, n] =>
-      match o.toNat?, n.toNat? with
-      | some o, some n => a.upd ⟨o, e⟩ fun x => { x with submitted := n }
-      | _, _ => { a with err := some s!"unparsable [{l}]" }
-  | ["H", "c", o, e, q] =>
-      match o.toNat?, q.toNat? with
-      | some o, some q => a.upd ⟨o, e⟩ fun x => { x with cancelled := q :: x.cancelled }
-      | _, _ => { a with err := some s!"unparsable [{l}]" }
-  | ["H", "x", o, e, q, tid] =>
-      match o.toNat?, q.toNat? with
-      | some o, some q =>
-          let x := a.get ⟨o, e⟩
-          if tid != "0" then { a with err := some s!"task {o}/{e}/{q} executed on thread {tid}, not on the loop thread" }
-          else if x.cancelled.contains q then { a with err := some s!"task {o}/{e}/{q} executed although cancel() returned true" }
-          else if q == 0 || q > x.submitted then { a with err := some s!"task {o}/{e}/{q} executed but never submitted" }
-          else if q ≤ x.lastSeq then
-            { a with err := some s!"task {o}/{e}/{q} executed after {o}/{e}/{x.lastSeq}: executed twice or out of submission order" }
-          else { a.upd ⟨o, e⟩ (fun x => { x with lastSeq := q, executed := x.executed + 1 }) with total := a.total + 1 }
-      | _, _ => { a with err := some s!"unparsable [{l}]" }
-  | ["H", "lost", n] => { a with lost := n.toNat?.getD 1 }
-  | ["H", "done", _] => { a with doneSeen := true }
-  | _ => { a with err := some s!"unexpected history line [{l}]" }
+  | ["H", "e", t, k] => t.toNat?.map fun t => { tid := t, kind := k }
+  | ["H", "e", t, k, a] => do pure { tid := ← t.toNat?, kind := k, a := ← a.toNat? }
+  | ["H", "e", t, k, o, e, q] => do
+      let c := (e.toList.head?.map Char.toNat).getD 0
+      pure { tid := ← t.toNat?, kind := k, a := ← o.toNat?, b := c, c := ← q.toNat? }
+  | _ => none
 
-def stressVerdict (a : SAcc) : Option String :=
-  match a.err with
-  | some e => some e
-  | none =>
-    if !a.doneSeen then some "history incomplete (no `H done`)" else
-    match a.ks.find? (fun x => x.executed + x.cancelled.length != x.submitted) with
-    | some x => some s!"submitter {x.key.owner}/{x.key.entry}: {x.submitted} submitted, {x.executed} executed, {x.cancelled.length} cancelled: task(s) dropped"
-    | none =>
-      if a.lost > 0 then some s!"LOST WAKE-UP: {a.lost} time(s) no task was executed for 300 ms although tasks were pending and the loop was running"
-      else none
+/-- what the loop thread's stream says about one pass -/
+structure PassInfo where
+  wake : Bool := false      -- the eventfd callback ran
+  exits : Bool := false     -- runLoop returned after this pass
+  hasExit : Bool := false   -- a callable of the pass (not of the shutdown drain) called exitLoop()
+deriving Inhabited
+
+structure Pre where
+  prog : Std.HashMap Nat (List Act) := {}
+  passes : Array PassInfo := #[]
+  inCall : Bool := false
+  key : Nat := 0
+  acts : List Act := []
+  secOpen : Bool := false   -- loop thread holds lock_ outside a callable
+  havePass : Bool := false
+
+def Pre.updLast (p : Pre) (f : PassInfo → PassInfo) : Pre :=
+  if p.passes.isEmpty then p else { p with passes := p.passes.modify (p.passes.size - 1) f }
+
+def preStep (p : Pre) (e : SEv) : Pre :=
+  if e.tid != 0 then p else
+  match e.kind with
+  | "PW" => { p with passes := p.passes.push {}, havePass := true }
+  | "RB" => { p with havePass := false }
+  | "RE" => if p.havePass then { (p.updLast fun i => { i with exits := true }) with havePass := false } else p
+  | "LA" => if p.inCall then p else { p with secOpen := true }
+  | "LR" => if p.inCall then p else { p with secOpen := false }
+  | "ER" => if p.inCall then p else p.updLast fun i => { i with wake := true }
+  | "XB" => { p with inCall := true, key := keyOf e.a e.b e.c, acts := [] }
+  | "XE" => { p with inCall := false, prog := p.prog.insert p.key p.acts.reverse }
+  | "AI" => { p with acts := .inLoop (keyOf e.a e.b e.c) :: p.acts }
+  | "AN" => { p with acts := .next (keyOf e.a e.b e.c) :: p.acts }
+  | "AC" => { p with acts := .cancel e.a :: p.acts }
+  | "AX" => let p := { p with acts := .exit :: p.acts }
+            if p.secOpen || !p.havePass then p else p.updLast fun i => { i with hasExit := true }
+  | "TH" => { p with acts := .throw :: p.acts }
+  | _ => p
+
+structure R where
+  s : State := init
+  prog : Std.HashMap Nat (List Act) := {}
+  passes : Array PassInfo := #[]
+  err : Option String := none
+  n : Nat := 0                                   -- events consumed
+  keyOfId : Std.HashMap Nat Nat := {}            -- run id → callable key
+  internal : List Nat := []
+  pendKey : List (Nat × Nat) := []               -- submitter thread → key of the runInLoop in flight
+  pred : List (Nat × Nat) := []                  -- submitter thread → run id the model handed out
+  secW : List Nat := []                          -- threads whose open section has written the eventfd
+  rb : Bool := false
+  inCall : Bool := false
+  pendAct : Bool := false                        -- AI seen, its critical section not yet closed
+  pendActKey : Nat := 0
+  pendCancel : Option Nat := none                -- cancel(even id) whose search of the cross-thread queue (under lock_) is still to come
+  lastId : Option Nat := none
+  lastCancel : Option Bool := none
+  secOpen : Bool := false
+  secER : Bool := false
+  secEW : Bool := false
+  drainOpen : Bool := false
+  passNo : Nat := 0
+  tags : List String := []
+  execs : Nat := 0
+  cancels : Nat := 0
+
+def R.cfg (r : R) : Cfg := fixedCfg fun k => r.prog.getD k []
+def R.fail (r : R) (m : String) : R := if r.err.isSome then r else { r with err := some s!"history event #{r.n}: {m}" }
+def R.tag (r : R) (t : String) : R := if r.tags.contains t then r else { r with tags := r.tags ++ [t] }
+def R.step (r : R) (st : Step) : R :=
+  if r.err.isSome then r else
+  if valid r.s st then { r with s := Tbox.C01.step r.cfg r.s st }
+  else r.fail s!"model step {repr st} is not enabled (phase {phaseName r.s.phase}): the implementation did something the model does not allow here"
+def R.pass (r : R) : PassInfo := r.passes[r.passNo - 1]!
+
+def isInternalTask (r : R) (t : Task) : Bool := r.internal.contains t.id
+
+/-- let the loop's own deferred tasks (no events) run if they are next -/
+partial def flushInternal (r : R) : R :=
+  if r.err.isSome then r else
+  match r.s.phase with
+  | .wake | .next =>
+      match r.s.tmpQ with
+      | t :: _ => if r.s.cur.isEmpty && isInternalTask r t then flushInternal (r.step .execFront) else r
+      | [] => r
+  | .drain =>
+      match r.s.dQ with
+      | t :: _ => if r.s.cur.isEmpty && isInternalTask r t then flushInternal (r.step .drainExec) else r
+      | [] =>
+          if r.s.cur.isEmpty && drainMore r.s && (r.s.nextQ ++ r.s.inLoopQ).all (isInternalTask r) then flushInternal (r.step .drainGen) else r
+  | _ => r
+
+/-- the batches of the pass are over: bring the model to `passEnd` -/
+partial def finishPass (r : R) : R :=
+  if r.err.isSome then r else
+  let r := flushInternal r
+  match r.s.phase with
+  | .pre =>
+      if r.s.wakeSeen then r.fail "the eventfd was readable when the poll returned but its callback did not run in this pass"
+      else finishPass (r.step .passSkip)
+  | .wake =>
+      if !r.s.tmpQ.isEmpty then r.fail s!"run-in-loop batch not completed: {showKey ((r.keyOfId.getD (r.s.tmpQ.head!).id 0))} was not executed"
+      else finishPass (r.step .passNext)
+  | .next =>
+      if !r.s.tmpQ.isEmpty then r.fail s!"run-next batch not completed: {showKey ((r.keyOfId.getD (r.s.tmpQ.head!).id 0))} was not executed"
+      else r.step .passEnd
+  | _ => r
+
+/-- the loop thread starts callable `key`: advance the model to the pop of exactly that task -/
+partial def popFor (r : R) (key : Nat) (tid : Nat) : R :=
+  if r.err.isSome then r else
+  let r := flushInternal r
+  let check (r : R) : R :=
+    match r.s.log with
+    | .exec id t :: _ =>
+        let k := r.keyOfId.getD id 0
+        if k != key then r.fail s!"callable {showKey key} was executed but the model's queues say {showKey k} (run id {id}) is next: order violated, executed twice, or executed after a successful cancel"
+        else if t != tid then r.fail s!"callable {showKey key} executed on thread {tid}, the loop is driven by thread {t}"
+        else { r with execs := r.execs + 1 }
+    | _ => r.fail "no execution event"
+  match r.s.phase with
+  | .pre =>
+      if r.s.wakeSeen then r.fail s!"callable {showKey key} ran before the eventfd callback of the pass"
+      else popFor (r.step .passSkip) key tid
+  | .wake =>
+      if r.secOpen then popFor (finishPass r) key tid      -- lock_ held outside a callable: this is the shutdown drain
+      else if !r.s.tmpQ.isEmpty then check (r.step .execFront)
+      else popFor (r.step .passNext) key tid
+  | .next =>
+      if !r.s.tmpQ.isEmpty then check (r.step .execFront)
+      else if r.secOpen then popFor (finishPass r) key tid
+      else r.fail s!"callable {showKey key} executed but the model's batch is empty"
+  | .drain =>
+      if !r.s.dQ.isEmpty then check ((r.step .drainExec).tag (if r.s.destroying then "exec-in-destructor" else "exec-in-exit-drain"))
+      else if drainMore r.s then popFor (r.step .drainGen) key tid
+      else r.fail s!"callable {showKey key} executed in the shutdown drain but the model has nothing left to run"
+  | _ => r.fail s!"callable {showKey key} executed while the loop is {phaseName r.s.phase}"
+
+def assocSet (l : List (Nat × Nat)) (k v : Nat) : List (Nat × Nat) := (k, v) :: l.filter (·.1 != k)
+
+def exitAct (r : R) (st : Step) : R :=
+  let r := if r.s.exitTimer then { r with internal := (r.s.nextAlloc + 2) :: r.internal } else r
+  r.step st
+
+def passBeginAt (r : R) : R :=
+  let p := r.pass
+  let r := r.step .passBegin
+  let r := if p.exits && !p.hasExit then
+             (if r.s.exitTimer then (r.step .timerExit).tag "exit-timer-fired"
+              else r.fail "runLoop returned although exitLoop() was not called and no exit timer was armed")
+           else r
+  if r.err.isSome then r else
+  if p.wake && !r.s.wakeSeen then r.fail "the poll reported the eventfd readable but the model's counter is 0"
+  else if !p.wake && r.s.wakeSeen then r.fail "the eventfd counter was positive when the poll was entered, yet the pass did not run the eventfd callback (lost wake-up)"
+  else r.tag (if p.wake then "wake" else "pass-without-wake")
+
+def replayEv (r : R) (e : SEv) : R :=
+  if r.err.isSome then r else
+  let r := { r with n := r.n + 1 }
+  if e.tid != 0 then
+    -- a submitter thread
+    match e.kind with
+    | "SB" => { r with pendKey := assocSet r.pendKey e.tid (keyOf e.a e.b e.c) }
+    | "LA" => { r with secW := r.secW.filter (· != e.tid) }
+    | "EW" => if e.a == 1 then { r with secW := e.tid :: r.secW } else r
+    | "LR" =>
+        match r.pendKey.lookup e.tid with
+        | none => r
+        | some key =>
+            let commit := r.s.efd.isSome && !r.s.hasCommit
+            let id := r.s.inAlloc + 2
+            let r := if r.s.phase == .idle then r.tag "submit-while-idle" else
+                     if !r.s.keepRunning then r.tag "submit-while-exiting" else r
+            let r := r.step (.submit e.tid key)
+            let wrote := r.secW.contains e.tid
+            -- an extra write is harmless (the read zeroes the counter whatever it is): model-internal, tagged only
+            let r := if wrote && !commit then r.tag "M:extra-eventfd-write"
+                     else if !wrote && commit then r.fail s!"runInLoop of {showKey key} did NOT write the eventfd although the loop is running and no wake-up is pending (lost wake-up)"
+                     else r
+            { r with pendKey := r.pendKey.filter (·.1 != e.tid), pred := assocSet r.pred e.tid id, keyOfId := r.keyOfId.insert id key }
+    | "SA" =>
+        match r.pred.lookup e.tid with
+        | some id => if id == e.a then r else r.fail s!"runInLoop returned id {e.a}, model {id}"
+        | none => r.fail "runInLoop returned without a critical section of lock_"
+    | _ => r
+  else
+    -- the loop thread
+    match e.kind with
+    | "AT" => if r.inCall then r.fail "unexpected AT" else (exitAct r (.idleAct 0 .exitLater)).tag "exit-timer-armed"
+    | "RB" => { r with rb := true }
+    | "LA" => if r.inCall then { r with secEW := false } else { r with secOpen := true, secER := false, secEW := false }
+    | "ER" => { r with secER := true }
+    | "EW" => if e.a == 1 then { r with secEW := true } else r
+    | "LR" =>
+        if r.inCall then
+          if r.pendAct then
+            let commit := r.s.efd.isSome && !r.s.hasCommit
+            let id := r.s.inAlloc + 2
+            let r := r.step .act
+            let r := if !r.secEW && commit then r.fail s!"runInLoop from the loop thread did not write the eventfd although no wake-up is pending (lost wake-up)"
+                     else if r.secEW && !commit then r.tag "M:extra-eventfd-write" else r
+            { r with pendAct := false, lastId := some id, keyOfId := r.keyOfId.insert id r.pendActKey }
+          else match r.pendCancel with
+          | some cid =>
+              let ret := cancelRet r.s cid
+              let r := r.tag (if ret then "cancel-queue-hit" else "cancel-miss")
+              { (r.step .act) with pendCancel := none, lastCancel := some ret, cancels := r.cancels + (if ret then 1 else 0) }
+          | none => r
+        else
+          let r := { r with secOpen := false }
+          if r.rb && r.s.phase == .idle then
+            let commit := !r.s.inLoopQ.isEmpty && !r.s.hasCommit
+            let r := if !r.s.inLoopQ.isEmpty then r.tag "start-with-queued-work" else r
+            let r := if r.s.log.any (fun x => x matches .start _) then r.tag "rerun" else r
+            let r := r.step (.loopStart 0 true)
+            let r := if !r.secEW && commit then r.fail "loop start: work is queued but the eventfd was not written (lost wake-up)"
+                     else if r.secEW && !commit then r.tag "M:extra-eventfd-write" else r
+            { r with rb := false }
+          else if r.secER then
+            -- a pass that ran the eventfd callback: the poll's sample is linearised here (see above)
+            let r := passBeginAt r
+            (if (r.s.log.filter (fun x => x matches .start _)).length ≥ 2 then r.tag "wake-after-rerun" else r).step .passWake
+          else if r.s.phase == .idle then r            -- run() inside exitLoop(ms) while idle
+          else if r.s.phase == .poll && r.passNo > 0 && r.pass.wake then
+            r.fail "the eventfd callback released lock_ without having read the eventfd: queue swap and eventfd read / flag clear are not one critical section"
+          else
+            -- end of the shutdown drain (possibly an empty one)
+            let r := if r.drainOpen then r else finishPass r
+            let r := flushInternal r
+            if r.err.isSome then r else
+            if r.s.phase != .drain then r.fail s!"runThisAfterLoop ran but the model's loop is {phaseName r.s.phase} (exitLoop not called?)"
+            else if !r.s.dQ.isEmpty || (drainMore r.s) then
+              r.fail s!"shutdown drain returned although {showKey (r.keyOfId.getD ((r.s.dQ ++ r.s.nextQ ++ r.s.inLoopQ).head!).id 0)} is still pending and fewer than 100 generations ran (task dropped)"
+            else { (r.step .drainEnd) with drainOpen := false }
+    | "PW" =>
+        let r := if r.s.phase == .poll then r else finishPass r
+        if r.err.isSome then r else
+        if r.s.phase != .poll then r.fail "the loop polls again although exitLoop() was called in the previous pass"
+        else
+          let r := { r with passNo := r.passNo + 1 }
+          if r.pass.wake then r else passBeginAt r
+    | "PR" => r
+    | "XB" =>
+        let key := keyOf e.a e.b e.c
+        let enteringDrain := r.secOpen && r.s.phase != .drain
+        let r := popFor r key 0
+        { r with inCall := true, drainOpen := r.drainOpen || enteringDrain }
+    | "XE" =>
+        if !r.s.cur.isEmpty then r.fail "callable returned but the model's script has acts left"
+        else { r with inCall := false, pendAct := false }
+    | "AI" =>
+        if r.secOpen then      -- lock_ already held (exit drain): no separate critical section
+          let id := r.s.inAlloc + 2
+          { (r.step .act) with lastId := some id, keyOfId := r.keyOfId.insert id (keyOf e.a e.b e.c) }
+        else { r with pendAct := true, pendActKey := keyOf e.a e.b e.c }
+    | "AN" =>
+        let id := r.s.nextAlloc + 2
+        { (r.step .act) with lastId := some id, keyOfId := r.keyOfId.insert id (keyOf e.a e.b e.c) }
+    | "AS" =>
+        if r.lastId == some e.a then { r with lastId := none }
+        else r.fail s!"loop-thread submission returned id {e.a}, model {r.lastId}"
+    | "AC" =>
+        if e.a != 0 && e.a % 2 == 0 && !hasId r.s.tmpQ e.a && !r.secOpen then { r with pendCancel := some e.a } else
+        let ret := cancelRet r.s e.a
+        let r := r.tag (if ret then (if hasId r.s.tmpQ e.a then "cancel-batch-hit" else "cancel-queue-hit") else "cancel-miss")
+        { (r.step .act) with lastCancel := some ret, cancels := r.cancels + (if ret then 1 else 0) }
+    | "AR" =>
+        if r.lastCancel == some (e.a == 1) then r
+        else r.fail s!"cancel returned {e.a}, model {r.lastCancel}"
+    | "AX" => (exitAct r .act).tag "exit-in-task"
+    | "TH" => (r.step .act).tag "throw"
+    | "RE" =>
+        if r.s.phase == .idle then r.tag "exit" else r.fail s!"runLoop returned but the model's loop is {phaseName r.s.phase}"
+    | "DB" => { (r.step (.destroy 0)) with drainOpen := true }
+    | "DE" =>
+        let r := flushInternal r
+        if r.err.isSome then r else
+        if valid r.s .drainEnd then { (r.step .drainEnd) with drainOpen := false }
+        else r.fail "destructor returned with tasks pending before 100 generations (task dropped)"
+    | _ => r
 
 /-- consume the history of one stress op from the implementation lines -/
 def stressOp (a : TAcc) : TAcc :=
@@ -290,10 +566,30 @@ def stressOp (a : TAcc) : TAcc :=
   let a := { a with nops := a.nops + 1 }
   let (h, rest) := a.tl.span (fun l => !(l.startsWith "H done"))
   let (h, rest) := match rest with | d :: r => (h ++ [d], r) | [] => (h, [])
-  let sa := h.foldl stressLine ({} : SAcc)
-  match stressVerdict sa with
+  if !(h.getLast?.map (·.startsWith "H done")).getD false then a.fail "history incomplete (no `H done`)" else
+  match h.find? (fun l => !(l.startsWith "H ")) with
+  | some l => a.fail s!"unexpected history line [{l}]"
+  | none =>
+  let evs := (h.filterMap parseSEv).toArray
+  let nEv := (h.filter (·.startsWith "H e ")).length
+  if evs.size != nEv then a.fail "unparsable history event" else
+  let submittedTotal := (h.filterMap fun l => match words l with | ["H", "sub", _, _, n] => n.toNat? | _ => none).foldl (· + ·) 0
+  let pre := evs.foldl preStep ({} : Pre)
+  let r := evs.foldl replayEv ({ prog := pre.prog, passes := pre.passes } : R)
+  let r := if r.err.isSome then r else
+    if r.s.phase != .dead then r.fail s!"history ends with the loop {phaseName r.s.phase}"
+    else if !(pend r.s).isEmpty && !((pend r.s).all (isInternalTask r)) then
+      r.fail s!"{(pend r.s).length} task(s) never executed, e.g. {showKey (r.keyOfId.getD ((pend r.s).head!).id 0)}: dropped"
+    else if r.execs + r.cancels != submittedTotal then
+      r.fail s!"{submittedTotal} callables submitted, {r.execs} executed + {r.cancels} cancelled"
+    else r
+  let lost := (h.filterMap fun l => match words l with | ["H", "lost", n] => n.toNat? | _ => none).foldl (· + ·) 0
+  let a := r.tags.foldl (fun a t => a.tag ("fr:" ++ t)) (a.tag "stress")
+  match r.err with
   | some e => a.fail e
-  | none => { (a.tag "stress").tag (if sa.ks.any (fun x => !x.cancelled.isEmpty) then "stress-cancel" else "stress") with tl := rest, execs := a.execs + sa.total }
+  | none =>
+    if lost > 0 then a.fail s!"LOST WAKE-UP: {lost} time(s) no task was executed for 300 ms although tasks were pending and the loop was running"
+    else { a with tl := rest, execs := a.execs + r.execs }
 
 structure DS where
   ops : Array String := #[]
